@@ -2,12 +2,16 @@
 
 Layers (DESIGN §6.C13):
  (1) spec/Sweep.tla      -- sweep / environment bookkeeping state machine, model checked exhaustively;
-     spec/TraceSweep.tla -- TLC validates executions recorded from the real DMRG engines (harness/sweeps.py)
-                            event by event against the actions of Sweep and evaluates FreshEnvs, AgeRule,
-                            SweepCoversAllBonds, ... on every state of the recorded history.
+     spec/TraceSweep.tla -- TLC validates executions recorded from the real engines (harness/sweeps.py: Two-/SingleSite
+                            DMRG finite + infinite, all mixers, combine; TDVP) event by event, (a) against the sweep
+                            program of Sweep (TraceSpec) and (b) against the environment primitives only, with the
+                            invariants FreshEnvs, AgeRule, SweepCoversAllBonds, ... as the judge (EnvTraceSpec).
  (2) spec/Solvable.tla   -- exactly solvable Hamiltonians with certificates checked by TLC over the integers;
-                            REPLAY: the real engines are run on them and the postconditions P1..P5 of the
-                            spec are evaluated with the certified exact data.
+                            REPLAY: the real engines (DMRG finite, iDMRG, VUMPS) are run on them and the
+                            postconditions P1..P5 / V1..V4 of the spec are evaluated with the certified exact data.
+ (3) spec/Solvable.tla, family "effH" -- MPOEnvironment parts and OneSiteH/TwoSiteH matvec / to_matrix on Gaussian-
+                            integer MPS/MPO data must EQUAL the spec's exact contraction.
+Stages (--only): mc, trace, solvable, effh, canary (canary runs in the thorough tier).
 """
 import itertools
 import json
@@ -22,7 +26,7 @@ from harness import core, tlc, tlaval, sweeps
 
 SWEEP_INV = ['TypeOK', 'FreshEnvs', 'FreshWindow', 'AgeRule', 'BoundaryKept', 'NoCrash', 'SweepCoversAllBonds',
              'NoRecompute', 'MemoryBound']
-SOLV_INV = ['EigenCert', 'ClassicalCert', 'FrustrationFreeCert', 'CellCert', 'Expected']
+SOLV_INV = ['EigenCert', 'ClassicalCert', 'FrustrationFreeCert', 'CellCert', 'EffHCert', 'Expected']
 WORKERS = int(os.environ.get('VERIF_WORKERS', '8'))
 
 
@@ -33,29 +37,37 @@ def only(ctx, name):
 # ================================================================================================
 # (1a) MC of the bookkeeping state machine
 # ================================================================================================
-def sweep_cfg(Ls, max_ext, mixes=('none', 'sub', 'dm'), max_sweeps=2):
-    return dict(spec='Spec', constants=dict(Ls=set(Ls), Finites={True, False}, Ns={1, 2}, Combines={True, False},
+def sweep_cfg(Ls, max_ext, mixes=('none', 'sub', 'dm'), max_sweeps=2, ns=(1, 2), finites=(True, False), inv=None):
+    return dict(spec='Spec', constants=dict(Ls=set(Ls), Finites=set(finites), Ns=set(ns), Combines={True, False},
                                             Mixes=set(mixes), MaxSweeps=max_sweeps, MaxExt=max_ext),
-                invariants=SWEEP_INV)
+                invariants=inv or SWEEP_INV)
 
 
 def stage_mc_sweep(ctx):
     quick = ctx.tier == 'quick'
     runs = [('Sweep(L<=4)', sweep_cfg({2, 3, 4}, 0)),
-            ('Sweep(L<=3,ext)', sweep_cfg({2, 3}, 1, mixes=('none', 'dm')))]
+            ('Sweep(L<=3,ext)', sweep_cfg({2, 3}, 1, mixes=('none',)))]
     if not quick:
         runs = [('Sweep(L<=5)', sweep_cfg({2, 3, 4, 5}, 0)),
                 ('Sweep(L<=3,ext,3 sweeps)', sweep_cfg({2, 3}, 1, max_sweeps=3)),
                 ('Sweep(L=4,ext)', sweep_cfg({4}, 1, mixes=('none', 'sub', 'dm')))]
+    # EnergySize (the measured energy belongs to a network of `age` sites) separately: it holds for the two-site
+    # engine and for finite systems, and is refuted for the single-site engine on infinite systems
+    # (confirmed on the real engine by the infinite-chain replay, see known finding C13-idmrg-single-site-energy-*)
+    big = {2, 3} if quick else {2, 3, 4}
+    runs += [('Sweep(EnergySize,all but single-site infinite)',
+              dict(sweep_cfg(big, 0, inv=['EnergySize']), constraints=['NotSingleSiteInfinite'])),
+             ('Sweep(EnergySize,n=1,infinite)', sweep_cfg({2} if quick else {2, 3}, 0, ns=(1,), finites=(False,), inv=['EnergySize']))]
     for name, cfg in runs:
         res, _, d = tlc.mc('Sweep', cfg, workers=WORKERS, timeout=3000)
         shutil.rmtree(d, ignore_errors=True)
         ctx.add_mc(name, res)
         for inv in res.violated:
-            ctx.violation(dict(kind='mc', spec='Sweep', invariant=inv),
+            ctx.violation(dict(kind='mc', spec='Sweep', invariant=inv, engine_n=sorted(cfg['constants']['Ns']),
+                               finite=sorted(cfg['constants']['Finites'])),
                           dict(run=name, trace=tlaval.to_jsonable(res.error_trace[-12:])))
         missing = [a for a, (d_, t) in res.coverage.items() if t == 0 and not (a == 'DoExtGet' and cfg['constants']['MaxExt'] == 0)]
-        if missing:
+        if missing and not res.violated:
             raise core.MachineryError('Sweep MC %s: actions never taken: %s' % (name, missing))
     ctx.exhaustive = True
 
@@ -342,6 +354,8 @@ def load_instances(ctx, name, cfg):
     if not insts:
         raise core.MachineryError('Solvable: no instance built')
     insts.sort(key=lambda I: (I['fam'], I['L'], I['nup'], I['var']))
+    for I in insts:      # TLC prints a function with domain 1..n as a sequence: nothing to convert
+        pass
     return insts
 
 
@@ -562,13 +576,15 @@ def solvable_case(ctx, inst, ecfg, s0, origin):
 
 
 INF_ENGINES = [
-    # (engine, conserve, mixer, initial state)
-    ('SingleSiteVUMPS', None, 'none', 'random'),
-    ('TwoSiteVUMPS', None, 'none', 'neel'),
-    ('TwoSiteDMRG', 'Sz', 'dm', 'neel'),
-    ('TwoSiteDMRG', 'Sz', 'sub', 'neel'),
-    ('SingleSiteDMRG', 'Sz', 'sub', 'neel'),
-    ('TwoSiteDMRG', 'Sz', 'none', 'neel'),
+    # (engine, conserve, mixer, initial state, N_sweeps_check [update_env = N_sweeps_check // 2])
+    ('SingleSiteVUMPS', None, 'none', 'random', 1),
+    ('TwoSiteVUMPS', None, 'none', 'neel', 1),
+    ('TwoSiteDMRG', 'Sz', 'dm', 'neel', 2),
+    ('TwoSiteDMRG', 'Sz', 'sub', 'neel', 3),
+    ('SingleSiteDMRG', 'Sz', 'sub', 'neel', 1),
+    ('SingleSiteDMRG', 'Sz', 'sub', 'neel', 2),
+    ('TwoSiteDMRG', 'Sz', 'none', 'neel', 2),
+    ('SingleSiteDMRG', 'Sz', 'sub', 'neel', 10),
 ]
 
 
@@ -577,10 +593,11 @@ def infinite_case(ctx, inst, icfg, origin):
     import numpy as np
     from tenpy.networks.mps import MPS
     from tenpy.algorithms import dmrg, vumps
-    ename, conserve, mix, init = icfg
+    ename, conserve, mix, init, nchk = icfg
     scale = max(1.0, sum(abs(t['c']) * (3 if t['k'] == 'p32' else 1) for t in inst['cell']))
     e0 = inst['E0cellx4'] / 8.0
-    sig0 = dict(kind='replay', spec='Solvable', fam='chain2-infinite', engine=ename, mix=mix, conserve=str(conserve))
+    sig0 = dict(kind='replay', spec='Solvable', fam='chain2-infinite', engine=ename, mix=mix, conserve=str(conserve),
+                update_env=nchk // 2)
     detail0 = dict(instance=tlaval.to_jsonable({k: inst[k] for k in ('fam', 'L', 'nup', 'var', 'cell', 'E0cellx4')}),
                    engine_cfg=list(icfg), origin=origin)
     key = ('inf', inst['var'], icfg)
@@ -594,7 +611,7 @@ def infinite_case(ctx, inst, icfg, origin):
             else:
                 psi = MPS.from_product_state(M.lat.mps_sites(), ['up', 'down'], bc='infinite')
             opts = dict(mixer=MIXERS[mix], trunc_params=dict(chi_max=8, svd_min=1e-10), max_sweeps=30, max_E_err=1e-12,
-                        max_S_err=1e-8, N_sweeps_check=1 if 'VUMPS' in ename else 2, max_trunc_err=None)
+                        max_S_err=1e-8, N_sweeps_check=nchk, max_trunc_err=None)
             if mix != 'none':
                 opts['mixer_params'] = dict(amplitude=1e-3, decay=2., disable_after=8)
             cls = dict(SingleSiteVUMPS=vumps.SingleSiteVUMPSEngine, TwoSiteVUMPS=vumps.TwoSiteVUMPSEngine,
@@ -641,7 +658,8 @@ def stage_infinite(ctx, insts, rng):
     for j, inst in enumerate(pool[:2 if quick else 6]):
         cfgs = list(INF_ENGINES)
         if quick:
-            cfgs = [INF_ENGINES[0], INF_ENGINES[1 + (j + ctx.seed) % 2 * 1], INF_ENGINES[2 + (j + ctx.seed) % 4]]
+            cfgs = [INF_ENGINES[0], INF_ENGINES[1 + (j + ctx.seed) % 2 * 1], INF_ENGINES[2 + (j + ctx.seed) % 3],
+                    INF_ENGINES[5 + (j + ctx.seed) % 3]]
         for icfg in cfgs:
             nrun += 1
             if infinite_case(ctx, inst, icfg, 'inf%d' % j):
@@ -687,6 +705,109 @@ def stage_solvable(ctx):
     ctx.trace_ok(nok)
     ctx.notes['solvable_runs'] = nrun
     stage_infinite(ctx, insts, rng)
+
+
+# ================================================================================================
+# (3) effective Hamiltonians over the Gaussian integers: equality with the spec's exact contraction
+# ================================================================================================
+def _t2np(t):
+    import numpy as np
+    return np.array([complex(a, b) for a, b in t['val']], dtype=complex).reshape(t['shape'])
+
+
+def effh_case(ctx, inst, origin, mutate=None):
+    """Build MPS / MPO / MPOEnvironment from the integer tensors of an "effH" instance and compare every
+    environment part, OneSiteH / TwoSiteH matvec and to_matrix with the spec's numbers (exact equality)."""
+    import numpy as np
+    from tenpy.linalg import np_conserved as npc
+    from tenpy.networks.site import SpinHalfSite
+    from tenpy.networks.mps import MPS
+    from tenpy.networks.mpo import MPO, MPOEnvironment
+    from tenpy.algorithms.mps_common import OneSiteH, TwoSiteH
+    site = SpinHalfSite(conserve=None)
+    ci = site.leg.chinfo
+    pleg = site.leg
+
+    def tleg(n, qconj):
+        return npc.LegCharge.from_trivial(n, ci, qconj)
+    Bs, Ws = [], []
+    for t in inst['B']:
+        a = _t2np(t)
+        Bs.append(npc.Array.from_ndarray(a, [tleg(a.shape[0], +1), pleg, tleg(a.shape[2], -1)], dtype=complex, labels=['vL', 'p', 'vR']))
+    for t in inst['W']:
+        a = _t2np(t)
+        Ws.append(npc.Array.from_ndarray(a, [tleg(a.shape[0], +1), tleg(a.shape[1], -1), pleg, pleg.conj()], dtype=complex,
+                                         labels=['wL', 'wR', 'p', 'p*']))
+    L = 3
+    SVs = [np.ones(B.shape[0]) for B in Bs] + [np.ones(1)]
+    psi = MPS([site] * L, Bs, SVs, bc='finite', form='B')
+    H = MPO([site] * L, Ws, bc='finite', IdL=[0, None, None, None], IdR=[None, None, None, 0])
+    env = MPOEnvironment(psi, H, psi)
+    sig0 = dict(kind='replay', spec='Solvable', fam='effH')
+    ok = True
+
+    def cmp(what, got, exp, **kw):
+        nonlocal ok
+        ctx.case(('effH', inst['var'], what, json.dumps(kw, sort_keys=True)), action='EffH.' + what)
+        if mutate == what:
+            exp = exp + 1
+        if got.shape != exp.shape or not np.array_equal(got, exp):
+            ok = False
+            ctx.violation(dict(sig0, clause=what, **{k: v for k, v in kw.items() if k in ('combine', 'move_right')}),
+                          dict(var=inst['var'], origin=origin, args=kw, got=str(got.tolist())[:800], expected=str(exp.tolist())[:800]))
+    try:
+        for i in range(L):
+            cmp('get_LP', env.get_LP(i).itranspose(['vR*', 'wR', 'vR']).to_ndarray(), _t2np(inst['LP'][i]), i=i)
+            cmp('get_RP', env.get_RP(i).itranspose(['vL', 'wL', 'vL*']).to_ndarray(), _t2np(inst['RP'][i]), i=i)
+        cmp('full_contraction', np.array(env.full_contraction(1)), np.array(complex(*inst['full'])), i=1)
+        for i0 in range(L):
+            for combine in (False, True):
+                for mr in (True, False):
+                    h = OneSiteH(env, i0, combine=combine, move_right=mr)
+                    th = h.combine_theta(psi.get_theta(i0, n=1))
+                    r = h.matvec(th)
+                    if combine:
+                        r = r.split_legs()
+                    cmp('OneSiteH.matvec', r.itranspose(['vL', 'p0', 'vR']).to_ndarray(), _t2np(inst['H1theta'][i0]),
+                        i0=i0, combine=combine, move_right=mr)
+                    m = h.to_matrix()
+                    if combine:   # rows/columns are pipes of pipes: bring them to (vL, p0, vR) order
+                        m = m.split_legs().split_legs()
+                        lab = (['vR*', 'p0', 'vL*', 'vR', 'p0*', 'vL'])
+                        m = m.itranspose(lab).to_ndarray()
+                    else:
+                        m = m.split_legs().itranspose(['vR*', 'p0', 'vL*', 'vR', 'p0*', 'vL']).to_ndarray()
+                    cmp('OneSiteH.to_matrix', m, _t2np(inst['H1'][i0]), i0=i0, combine=combine, move_right=mr)
+        for i0 in range(L - 1):
+            for combine in (False, True):
+                h = TwoSiteH(env, i0, combine=combine)
+                th = h.combine_theta(psi.get_theta(i0, n=2))
+                r = h.matvec(th)
+                if combine:
+                    r = r.split_legs()
+                cmp('TwoSiteH.matvec', r.itranspose(['vL', 'p0', 'p1', 'vR']).to_ndarray(), _t2np(inst['H2theta'][i0]),
+                    i0=i0, combine=combine)
+                m = h.to_matrix().split_legs()
+                if combine:
+                    m = m.split_legs()
+                m = m.itranspose(['vR*', 'p0', 'p1', 'vL*', 'vR', 'p0*', 'p1*', 'vL']).to_ndarray()
+                cmp('TwoSiteH.to_matrix', m, _t2np(inst['H2'][i0]), i0=i0, combine=combine)
+    except core.MachineryError:
+        raise
+    except Exception as e:
+        ctx.violation(dict(sig0, clause='exception', exc=type(e).__name__), dict(var=inst['var'], origin=origin, message=str(e)[:600]))
+        return False
+    return ok
+
+
+def stage_effh(ctx):
+    insts = load_instances(ctx, 'Solvable(effH)', solv_cfg({'effH'}, {3}, 4 if ctx.tier == 'quick' else 12))
+    nok = 0
+    for j, inst in enumerate(insts):
+        if effh_case(ctx, inst, 'effH%d' % j):
+            nok += 1
+    ctx.trace_ok(nok)
+    ctx.notes['effH_instances'] = len(insts)
 
 
 # ================================================================================================
@@ -773,6 +894,14 @@ def stage_canary(ctx):
     if not any(v.get('clause', '').startswith(('P4', 'P5')) for v in probe.violations):
         raise core.MachineryError('canary: a wrong certified E0 was not noticed')
     n_rej += 1
+    # (d) one wrong expected number of an exact effective-Hamiltonian case must be noticed
+    einst = load_instances(_Probe(ctx), 'Solvable(canary effH)', solv_cfg({'effH'}, {3}, 1))[0]
+    for what in ('get_RP', 'TwoSiteH.matvec', 'OneSiteH.to_matrix'):
+        probe = _Probe(ctx)
+        effh_case(probe, einst, 'canary', mutate=what)
+        if not any(v.get('clause') == what for v in probe.violations):
+            raise core.MachineryError('canary: corrupted expectation of %s was accepted' % what)
+        n_rej += 1
     ctx.notes['canaries_rejected'] = n_rej
 
 
@@ -781,27 +910,46 @@ def replay(ctx, path):
     with open(path) as f:
         doc = json.load(f)
     det, sig = doc['detail'], doc['signature']
-    if sig.get('spec') == 'Solvable':
+    if sig.get('spec') == 'Solvable' and sig.get('fam') not in ('effH', 'chain2-infinite'):
         inst = det['instance']
         insts = load_instances(ctx, 'Solvable(replay)', solv_cfg({inst['fam']}, {inst['L']}, inst['var'] + 1))
         I = [x for x in insts if (x['fam'], x['L'], x['nup'], x['var']) == (inst['fam'], inst['L'], inst['nup'], inst['var'])][0]
         solvable_case(ctx, I, tuple(det['engine_cfg']), det['start'], 'replay')
         ctx.trace_ok(1)
+    elif sig.get('fam') == 'effH':
+        insts = load_instances(ctx, 'Solvable(replay effH)', solv_cfg({'effH'}, {3}, det['var'] + 1))
+        effh_case(ctx, [x for x in insts if x['var'] == det['var']][0], 'replay')
+        ctx.trace_ok(1)
+    elif sig.get('fam') == 'chain2-infinite':
+        inst = det['instance']
+        insts = load_instances(ctx, 'Solvable(replay)', solv_cfg({'chain2'}, {inst['L']}, inst['var'] + 1))
+        I = [x for x in insts if x['var'] == inst['var']][0]
+        infinite_case(ctx, I, tuple(det['engine_cfg']), 'replay')
+        ctx.trace_ok(1)
     elif sig.get('kind') in ('trace', 'exception') and 'run' in det:
         rec = sweeps.Recorder()
         rec.install()
+        rc = det['run']
+        is_tdvp = str(rc.get('engine', '')).endswith('TDVP')
         try:
-            rc = det['run']
-            E, eng, exc = run_engine_traced(rec, rc)
+            if is_tdvp:
+                exc = run_tdvp_traced(rec, rc)
+            else:
+                E, eng, exc = run_engine_traced(rec, rc)
         finally:
             rec.uninstall()
         if exc is not None:
             ctx.violation(dict(kind='exception', stage='trace', exc=type(exc).__name__,
-                               engine='TwoSite' if rc['n'] == 2 else 'SingleSite', bc=rc['bc'], mix=rc['mix'],
+                               engine=rc.get('engine', 'TwoSite' if rc['n'] == 2 else 'SingleSite'), bc=rc['bc'], mix=rc['mix'],
                                combine=rc['combine'], model=rc['model']), dict(run=rc, message=str(exc)[:500]))
         else:
             ev = rec.take()
-            ctx.trace_ok(validate_traces(ctx, ev, {e['tid']: rc for e in ev}, 'replay'))
+            by = {e['tid']: rc for e in ev}
+            if is_tdvp:
+                ctx.trace_ok(validate_traces(ctx, ev, by, 'replay', spec='EnvTraceSpec', invariants=ENV_INV))
+            else:
+                ctx.trace_ok(validate_traces(ctx, ev, by, 'replay'))
+                validate_traces(ctx, ev, by, 'replay', spec='EnvTraceSpec', count=False)
     else:
         raise core.MachineryError('cannot replay %s' % path)
 
@@ -810,12 +958,13 @@ def check(ctx):
     logging.getLogger('tenpy').setLevel(logging.CRITICAL)
     ctx.rule = ('TRACE: one case = one recorded event (environment call / sweep phase of a real DMRG engine run) matched by TLC '
                 'against the Sweep action and the observed post-state; REPLAY: one case = one postcondition (P1..P5 of '
-                'Solvable.tla) evaluated on one real engine run on a TLC-certified instance; distinct = distinct '
+                'Solvable.tla) evaluated on one real engine run on a TLC-certified instance, or one exact comparison of an '
+                'environment part / effective-Hamiltonian result with the spec value (family effH); distinct = distinct '
                 '(run configuration, event index) / (instance, engine configuration, start state, clause)')
     ctx.assume('TLC model checker and its Json/IOUtils modules', 'the interposition layer harness/sweeps.py '
                '(array identity tracks which tensors an environment part contains)',
                'the specification modules Sweep, TraceSweep, Solvable (+Exact)',
-               'projection functions: dense amplitudes of an MPS, term list -> CouplingMPOModel',
+               'projection functions: dense amplitudes of an MPS, term list -> CouplingMPOModel, integer tensors -> npc.Array',
                'H_MPO.expectation_value is bound by C11', 'float postconditions with tolerance 1e-8*scale')
     if ctx.replay_file:
         return replay(ctx, ctx.replay_file)
@@ -825,6 +974,8 @@ def check(ctx):
         stage_trace(ctx)
     if only(ctx, 'solvable'):
         stage_solvable(ctx)
+    if only(ctx, 'effh'):
+        stage_effh(ctx)
     if (ctx.only is None and ctx.tier != 'quick') or (ctx.only is not None and 'canary' in ctx.only):
         stage_canary(ctx)
 
